@@ -628,7 +628,7 @@ func (b *BaseStore) Load(ctx context.Context, amount int) error {
 // more entries than the merged log holds, so the merge is done without a limit
 // and the log is only trimmed afterwards if it is longer than amount.
 func (b *BaseStore) joinWithLimit(oplog ipfslog.Log, l ipfslog.Log, amount int) error {
-	if _, err := oplog.Join(l, -1); err != nil {
+	if err := b.joinVerified(oplog, l); err != nil {
 		return err
 	}
 
@@ -648,6 +648,47 @@ func (b *BaseStore) joinWithLimit(oplog ipfslog.Log, l ipfslog.Log, amount int) 
 
 	_, err = oplog.Join(empty, amount)
 	return err
+}
+
+// joinVerified merges l, a log read back from storage, into oplog. An entry
+// that could not be verified during replication stays reachable from the
+// valid entries that name it, so it is read back along with them: ipfslog's
+// Join then refuses the whole log, which would keep every valid entry of that
+// history out as well. In that case the entries are merged one by one, as
+// replication does, and the refused ones are left out.
+func (b *BaseStore) joinVerified(oplog ipfslog.Log, l ipfslog.Log) error {
+	_, err := oplog.Join(l, -1)
+	if err == nil {
+		return nil
+	}
+
+	joined := false
+	for _, e := range l.Values().Slice() {
+		single, lerr := ipfslog.NewLog(b.IPFS(), b.Identity(), &ipfslog.LogOptions{
+			ID:               oplog.GetID(),
+			AccessController: b.AccessController(),
+			SortFn:           b.SortFn(),
+			IO:               b.options.IO,
+			Entries:          entry.NewOrderedMapFromEntries([]ipfslog.Entry{e}),
+			Heads:            []ipfslog.Entry{e},
+		})
+		if lerr != nil {
+			continue
+		}
+
+		if _, lerr = oplog.Join(single, -1); lerr != nil {
+			b.Logger().Warn("unable to join entry, discarding it", zap.Error(lerr))
+			continue
+		}
+
+		joined = true
+	}
+
+	if !joined {
+		return err
+	}
+
+	return nil
 }
 
 func (b *BaseStore) Sync(ctx context.Context, heads []ipfslog.Entry) error {
@@ -869,7 +910,7 @@ func (b *BaseStore) LoadFromSnapshot(ctx context.Context) error {
 		return fmt.Errorf("unable to load log: %w", err)
 	}
 
-	if _, err = b.OpLog().Join(log, -1); err != nil {
+	if err = b.joinVerified(b.OpLog(), log); err != nil {
 		return fmt.Errorf("unable to join log: %w", err)
 	}
 
